@@ -84,6 +84,14 @@ def allowed(bt: bool, ipv8: bool, own_overlay: bool, flags) -> bool:  # noqa: AN
     return bool(ipv8 and own_overlay)
 
 
+DEFAULT_FLAGS = frozenset({FLAG_RELAY, FLAG_SPEED_TEST})   # documented default of the tunnel settings: relay, no exiting
+
+
+def configured_flags(spec) -> frozenset:  # noqa: ANN001
+    """The flags a node's policy is computed from: what its own operator configured, else the documented default."""
+    return DEFAULT_FLAGS if spec is None else frozenset(spec)
+
+
 def shape_class(bt: bool, ipv8: bool, own_overlay: bool) -> str:
     parts = [n for n, v in (("bt", bt), ("ipv8", ipv8 and not own_overlay), ("own", ipv8 and own_overlay)) if v]
     return "+".join(parts) or "other"
